@@ -163,17 +163,26 @@ def run_driver_shard(fam, tier, seed, shard, nshards, outbase, extra, max_restar
             raise ToolError("driver %s usage/tool error" % fam)
         # crashed/hung inside a call: count the runs begun so far and continue behind them
         nruns = 0
+        last_tag = b""
         with open(out, "rb") as f:
             for line in f:
                 if line.startswith(b"R\t"):
                     nruns += 1
+                if line.endswith(b"\n"):
+                    last_tag = line[:1]
+        if nruns and last_tag != b"C":
+            # the process died OUTSIDE a logged call (a constructor or accessor of the code under test that a
+            # driver calls directly, or a fault of the driver itself): nothing is pending in the log, so the
+            # death would go unnoticed -- leave a pending pseudo call behind, which no specification explains
+            with open(out, "ab") as f:
+                f.write(b'C\t{"op":"died_outside_a_logged_call","a":{}}\n')
         log("driver %s shard %d died (rc=%s) in run #%d of this attempt; restarting behind it" %
             (fam, shard, p.returncode, nruns))
         if nruns == 0:
             sys.stdout.write(p.stdout[-3000:])
             raise ToolError("driver %s died before its first run" % fam)
         skip += nruns
-    # the code under test keeps dying: every death already left a dangling call (= a violation to report);
+    # the code under test keeps dying: every death left a dangling call (= a violation to report);
     # the rest of this shard is abandoned
     log("driver %s shard %d: giving up after %d restarts (the dangling calls are reported)" %
         (fam, shard, max_restarts))
